@@ -4,6 +4,7 @@ import (
 	"encoding/json"
 	"fmt"
 	"math/rand"
+	"os"
 	"reflect"
 	"sort"
 	"strconv"
@@ -338,15 +339,86 @@ func c16Event(c obj) obj {
 	return ev
 }
 
+// Hand-written targets that reflect.StructOf cannot build: a struct EMBEDDED with the inline flag (its fields are the
+// outer struct's keys). Alias-free, zero-valued destinations: the result is what yaml.v3 gives.
+type c16base struct {
+	BName string   `yaml:"bname"`
+	BTags []string `yaml:"btags"`
+}
+type C16Base struct {
+	BName string   `yaml:"bname"`
+	BTags []string `yaml:"btags"`
+}
+type c16EmbUnexp struct {
+	Name    string `yaml:"name"`
+	c16base `yaml:",inline"`
+	Count   int `yaml:"count"`
+}
+type c16EmbExp struct {
+	Name    string `yaml:"name"`
+	C16Base `yaml:",inline"`
+	Count   int `yaml:"count"`
+}
+
+var c16EmbDocs = []string{`{"name":"n","bname":"b","btags":["x","y"],"count":3}`, `{"bname":"only"}`, `{"count":7,"btags":[],"name":"n"}`, `{"name":"n"}`}
+
+func c16EmbeddedEvent(k int) obj {
+	c := normalize(obj{"desc": []any{}, "doc": []any{}, "pre": false, "rot": k, "embedded": k})
+	ev := obj{"c": c, "kind": "embedded", "start": obj{"t": "z"}, "ordered": obj{"t": "z"}, "yamlv3": obj{"t": "z"}, "err": false, "yerr": false}
+	text := c16EmbDocs[k%len(c16EmbDocs)]
+	p, msg := guarded(func() {
+		var n yaml.Node
+		if err := yaml.Unmarshal([]byte(text), &n); err != nil {
+			panic("driver: " + err.Error())
+		}
+		src, err := ordered.DecodeYAML(&n)
+		if err != nil {
+			panic("driver: " + err.Error())
+		}
+		var dst, ref reflect.Value
+		if (k/len(c16EmbDocs))%2 == 0 {
+			dst, ref = reflect.ValueOf(&c16EmbUnexp{}), reflect.ValueOf(&c16EmbUnexp{})
+		} else {
+			dst, ref = reflect.ValueOf(&c16EmbExp{}), reflect.ValueOf(&c16EmbExp{})
+		}
+		err = ordered.Unmarshal(src, dst.Interface())
+		ev["err"] = err != nil
+		if err != nil {
+			ev["errmsg"] = err.Error()
+		}
+		ev["ordered"] = reflectAV(dst.Elem())
+		yerr := yaml.Unmarshal([]byte(text), ref.Interface())
+		ev["yerr"] = yerr != nil
+		ev["yamlv3"] = reflectAV(ref.Elem())
+	})
+	ev["panic"] = p
+	if p {
+		if strings.HasPrefix(msg, "driver:") {
+			fatal("%s", msg)
+		}
+		ev["panicmsg"] = msg
+	}
+	return ev
+}
+
 func runC16(args []string) {
 	fl := parseFlags(args)
 	tw := newTraceWriter(fl.str("out", ""))
 	defer tw.close()
 	samples := []any{}
 	types := map[string]bool{}
-	readNDJSON(fl.str("cases", ""), func(n int, c obj) {
+	casesFile := fl.str("cases", "")
+	if casesFile == "" {
+		casesFile = os.DevNull
+	}
+	readNDJSON(casesFile, func(n int, c obj) {
 		if _, ok := c["rot"]; !ok {
 			c["rot"] = json.Number(strconv.Itoa(n))
+		}
+		if e, ok := c["embedded"].(json.Number); ok {
+			k, _ := e.Int64()
+			tw.emit(c16EmbeddedEvent(int(k)))
+			return
 		}
 		ev := c16Event(c)
 		if t, ok := ev["gotype"].(string); ok {
@@ -359,5 +431,10 @@ func runC16(args []string) {
 		delete(ev, "gotype")
 		tw.emit(ev)
 	})
+	if fl.str("embedded", "") != "" {
+		for k := 0; k < 2*len(c16EmbDocs); k++ {
+			tw.emit(c16EmbeddedEvent(k))
+		}
+	}
 	writeSummary(fl.str("summary", ""), obj{"events": tw.n, "struct_types": len(types), "samples": samples})
 }
